@@ -1,10 +1,10 @@
 SPECIFICATION ISpec
 CONSTANTS
-  P = 2
+  P = 1
   C = 2
   L = 0
-  MaxProd = 3
-  NB = 0
+  MaxProd = 1
+  NB = 2
   MaxTog = 0
   MaxFail = 0
   Variant = "ok"
